@@ -13,8 +13,10 @@
 #include "stir/IndexRange3D.h"
 #include "stir/VectorWithOffset.h"
 #include "stir/shared_ptr.h"
+#include "stir/copy_fill.h"
 #include "common.h"
 #include <map>
+#include <set>
 #include <functional>
 #include <memory>
 #include <stdexcept>
@@ -466,6 +468,158 @@ view_checks(vh::Rng& rng, int n, FILE* out, long& steps)
   return fails;
 }
 
+// irregular arrays: inner rows resized individually; is_contiguous(), copy_to / fill_from, get_full_data_ptr
+// must agree with the actual element addresses and with row-major order
+static long
+irregular_checks(vh::Rng& rng, int n, FILE* out, long& steps)
+{
+  long fails = 0;
+  for (int k = 0; k < n; ++k)
+    {
+      const int n0 = rng.range(2, 4), n1 = rng.range(2, 5);
+      const int lo0 = rng.range(-2, 1), lo1 = rng.range(-2, 1);
+      const bool view = rng.coin();
+      shared_ptr<int[]> mem(new int[n0 * n1]);
+      IndexRange2D range(lo0, lo0 + n0 - 1, lo1, lo1 + n1 - 1);
+      Array<2, int> a = view ? Array<2, int>(range, mem) : Array<2, int>(range);
+      RefMap ref;
+      int val = 1;
+      for (int i = lo0; i < lo0 + n0; ++i)
+        for (int j = lo1; j < lo1 + n1; ++j)
+          {
+            a[i][j] = val;
+            ref[{ i, j }] = val;
+            ++val;
+          }
+      std::ostringstream trace;
+      trace << (view ? "view " : "own ") << n0 << "x" << n1 << "; ";
+      const int nops = rng.range(1, 3);
+      for (int op = 0; op <= nops; ++op)
+        {
+          ++steps;
+          if (op > 0)
+            {
+              // shrink / shift one inner row (never growing beyond its storage when viewing shared memory is not required)
+              const int i = rng.range(lo0, lo0 + n0 - 1);
+              const int rlo = a[i].get_min_index(), rhi = a[i].get_max_index();
+              int nlo = rlo + rng.range(0, 1), nhi = rhi - rng.range(0, 2);
+              if (rng.range(0, 4) == 0)
+                nhi = rhi + 1; // grow at the high end
+              trace << "a[" << i << "].resize(" << nlo << "," << nhi << "); ";
+              a[i].resize(nlo, nhi);
+              RefMap nr;
+              for (auto& kv : ref)
+                if (kv.first[0] != i)
+                  nr[kv.first] = kv.second;
+              for (int j = nlo; j <= nhi; ++j)
+                {
+                  RefMap::const_iterator it = ref.find({ i, j });
+                  nr[{ i, j }] = it == ref.end() ? 0 : it->second;
+                }
+              ref.swap(nr);
+            }
+          std::string why;
+          if (!check_against(a, ref, why))
+            {
+              ++fails;
+              std::fprintf(out, "ORACLE-FAIL irregular: %s | history: %s\n", why.c_str(), trace.str().c_str());
+              break;
+            }
+          if (ref.empty())
+            continue;
+          // ground truth for contiguity: addresses of the elements in row-major order
+          bool contiguous = true;
+          const int* prev = nullptr;
+          for (int i = a.get_min_index(); i <= a.get_max_index(); ++i)
+            for (int j = a[i].get_min_index(); j <= a[i].get_max_index(); ++j)
+              {
+                const int* p = &a[i][j];
+                if (prev && p != prev + 1)
+                  contiguous = false;
+                prev = p;
+              }
+          if (a.is_contiguous() != contiguous)
+            {
+              ++fails;
+              std::fprintf(out, "ORACLE-FAIL irregular: is_contiguous()=%d but element addresses say %d | history: %s\n", a.is_contiguous() ? 1 : 0,
+                           contiguous ? 1 : 0, trace.str().c_str());
+              break;
+            }
+          // copy_to delivers exactly the elements in row-major order
+          std::vector<int> got(ref.size() + 4, -777);
+          copy_to(a, got.begin());
+          bool ok = true;
+          std::size_t pos = 0;
+          for (auto& kv : ref)
+            ok = ok && got[pos++] == kv.second;
+          ok = ok && got[ref.size()] == -777;
+          if (!ok)
+            {
+              ++fails;
+              std::fprintf(out, "ORACLE-FAIL irregular: copy_to does not deliver the elements in row-major order | history: %s\n", trace.str().c_str());
+              break;
+            }
+          // fill_from writes exactly the elements, in row-major order, and nothing else
+          std::vector<int> src(ref.size());
+          for (std::size_t q = 0; q < src.size(); ++q)
+            src[q] = 5000 + static_cast<int>(q) + 17 * op;
+          std::vector<int> guard;
+          if (view)
+            guard.assign(mem.get(), mem.get() + n0 * n1);
+          fill_from(a, src.begin(), src.end());
+          pos = 0;
+          for (auto& kv : ref)
+            kv.second = src[pos++];
+          if (!check_against(a, ref, why))
+            {
+              ++fails;
+              std::fprintf(out, "ORACLE-FAIL irregular: after fill_from: %s | history: %s\n", why.c_str(), trace.str().c_str());
+              break;
+            }
+          if (view)
+            {
+              // cells of the shared block that are not elements of the array must be untouched
+              std::set<const int*> elems;
+              for (int i = a.get_min_index(); i <= a.get_max_index(); ++i)
+                for (int j = a[i].get_min_index(); j <= a[i].get_max_index(); ++j)
+                  elems.insert(&a[i][j]);
+              for (int q = 0; q < n0 * n1; ++q)
+                if (!elems.count(mem.get() + q) && mem[q] != guard[q])
+                  ok = false;
+              if (!ok)
+                {
+                  ++fails;
+                  std::fprintf(out, "ORACLE-FAIL irregular: fill_from wrote to a cell that is not an element of the array | history: %s\n", trace.str().c_str());
+                  break;
+                }
+            }
+          // get_full_data_ptr: error for non-contiguous arrays, row-major view otherwise
+          bool threw = false;
+          try
+            {
+              int* fp = a.get_full_data_ptr();
+              pos = 0;
+              for (auto& kv : ref)
+                ok = ok && fp[pos++] == kv.second;
+              a.release_full_data_ptr();
+            }
+          catch (std::exception&)
+            {
+              threw = true;
+              a.release_full_data_ptr();
+            }
+          if (threw == contiguous || !ok)
+            {
+              ++fails;
+              std::fprintf(out, "ORACLE-FAIL irregular: get_full_data_ptr %s for a %s array | history: %s\n", threw ? "reported an error" : "returned a pointer",
+                           contiguous ? "contiguous" : "non-contiguous", trace.str().c_str());
+              break;
+            }
+        }
+    }
+  return fails;
+}
+
 int
 main(int argc, char** argv)
 {
@@ -482,6 +636,7 @@ main(int argc, char** argv)
       fails += nd_histories<2>(rng, histories, len, out, steps);
       fails += nd_histories<3>(rng, histories / 2 + 1, len, out, steps);
       fails += view_checks(rng, histories, out, steps);
+      fails += irregular_checks(rng, histories, out, steps);
       std::fprintf(out, "ND-DONE steps=%ld fails=%ld\n", steps, fails);
       std::fclose(out);
       return fails ? 1 : 0;
